@@ -48,6 +48,22 @@ Theorem C30_same_schedule_with_detection :
 Proof. exact same_schedule_with_detection. Qed.
 Print Assumptions C30_same_schedule_with_detection.
 
+(** Known finding C30-F26 (raft-backed deployment, not repaired): the value is
+    read at one timestamp and written under a later, fresh start timestamp,
+    which the percolator prewrite check cannot relate to the read: the same
+    two-client schedule loses an update with no conflict reported, and two
+    SET NX both succeed. *)
+Theorem C30_raft_counter_refuted :
+  let g := final_raft true None two_incr interleaved in
+  finished g = true /\ acked g = 2%Z /\ conflicts g = 0%nat /\ latest None (hist g) = Some 1%Z.
+Proof. exact raft_lost_update. Qed.
+Print Assumptions C30_raft_counter_refuted.
+
+Theorem C30_raft_setnx_refuted :
+  let g := final_raft true None two_setnx interleaved in finished g = true /\ oks g = 2%nat.
+Proof. exact raft_setnx_twice. Qed.
+Print Assumptions C30_raft_setnx_refuted.
+
 (** The boolean oracles of the correspondence check decide the specification. *)
 Theorem C30_oracle_decides : forall init fin acks,
   counter_ok_b init fin acks = true <-> counter_ok init fin acks.
